@@ -163,6 +163,40 @@ CHECKS["C16"] = dict(
     technique="TLA+ state-machine spec of the loader's namespace state, TLC exhaustive histories; edge-cover replay and trace validation of load histories",
     design="5 C16")
 
+CHECKS["C17"] = dict(
+    text=("LoaderRes.tla models from_xtce's three passes with the recursive container descent (base, then nested references) as an "
+          "explicit stack, the lookup that is mutated on the way, duplicate rules per pass, the exactly-one by-name element search and "
+          "inheritor back-population, with objects identified by allocation index so that identity is expressible. TLC runs it on every "
+          "acyclic base/nesting structure over 2-3 containers (4: sampled) in several document orders and on every single-point "
+          "corruption of each, checking ReferencesShareIdentity, InheritorsExact and BrokenRejected in every state; each document is "
+          "loaded by the real from_xtce and outcome, entry lists, `is`-identity of every reference and inheritor lists are compared."),
+    note="Any exception (incl. RecursionError for cycles) counts as rejection; references made from criteria / length specifications are "
+         "outside the claim. " + TRUSTED,
+    technique="TLA+ state-machine spec of the loader's resolution algorithm, TLC on enumerated documents and corruptions; end-state conformance against from_xtce",
+    design="5 C17")
+CHECKS["C15"] = dict(
+    text=("RoundTrip.tla models the three name-keyed caches (pre-order filling from a container list, dependency-first container lookup "
+          "while walking the document, writing in cache order); TLC checks StableAfterOne / WriteIsPure / NoDuplicates on container "
+          "dependency graphs of 2-4 containers x initial orders x {object-built, loaded}. The real library is run through build + 3 "
+          "write/load cycles on the same graphs and on random rich definitions: W(D) = W(D) bytewise, output well-formed with every "
+          "element in the definition's namespace, D unchanged by writing, cache orders stable after the first cycle, G2 = G3 = G4 "
+          "bytewise."),
+    note="Byte identity is observed directly on the real serializer with a fixed header date; the order in which the sets are written is "
+         "not a verdict (only its stability), so a differing order is recorded as model drift. " + TRUSTED,
+    technique="TLA+ model of cache ordering under write/load cycles checked by TLC; cycle replay on the real serializer with byte comparison",
+    design="5 C15")
+CHECKS["C09"] = dict(
+    category="exploration",
+    text=("RoundTripAttrs (TLA+) tabulates, per attribute, the values, those at which the writer omits the attribute and the reader's default; "
+          "TLC checks Read(Write(v)) = v and exports every lattice point. Each point and random combinations become real definitions built "
+          "from objects and loaded from XML; random rich definitions and the bundled / mission documents are added. For every definition X "
+          "an independent structural projection (incl. length adjustments, calibrators, criteria, enumerations, units, descriptions, "
+          "inheritance, abstract flags) of load(write(X)) must equal that of X, and packets must decode identically before and after."),
+    note="The deciding comparison is the harness's projection and decode comparison (exploration level); the TLA+ part enumerates the "
+         "attribute lattice. Base-without-criteria and zero-length binary are outside the writable subset. " + TRUSTED,
+    technique="TLA+ attribute-lattice enumeration (TLC) driving projection round-trip conformance on real definitions",
+    design="5 C09")
+
 NOT_YET = {}
 for _i in range(1, 21):
     _p = f"C{_i:02d}"
